@@ -27,7 +27,7 @@ META = {
                    'histories (any sequence of documents through the shared json_to_field cache, hence every repetition count n >= 1) '
                    'about an executable model of the default-engine unknown-key branch with its cache as state, of the v1 '
                    'len(o) != i fast path, and of the CatchAll re-emission in the dumper; two regions are excluded and refuted with '
-                   'witnesses that replay on the implementation (open findings F19, F22).  The model is re-validated against the '
+                   'witnesses that replay on the implementation (open findings F19, F41).  The model is re-validated against the '
                    'implementation on every run.'),
     'level_note': ('Trusted: Coq kernel + vm_compute; the hand-written model (one class level; a nested dataclass is the abstract '
                    'per-field conversion `conv`, composition over nesting is exercised by the harness at depth 2, not proved); key '
@@ -458,7 +458,7 @@ def region_of(spec, doc, ms):
         if s['engine'] == 'v1' and in_f19_region(s) and level_unknown(s, d, ms):
             return 'F19-v1-shared-top-level-key'
         if s['engine'] == 'v0' and s['catch'] and SENTINEL in d:
-            return 'F22-catchall-sentinel-key'
+            return 'F41-catchall-sentinel-key'
         for f in s['fields']:
             if f['kind'] == 'nested':
                 for k, v in d.items():
@@ -660,15 +660,21 @@ def run(ctx):
 
     # ---- implementation ------------------------------------------------------------------------
     impl = ctx.impl('c10', {'cases': [{'cls': c['cls'], 'loads': c['loads']} for c in cases],
-                            'witness': [{'kind': 'F19'}, {'kind': 'F22'}]})
+                            'witness': [{'kind': 'F19'}, {'kind': 'F41'}]})
     w19, w22 = impl['witness']
+    resolved = set()     # findings whose witness no longer fails: the faithful (defective) model is not compared in their region
     if ctx.finding('F19-v1-shared-top-level-key'):
-        ctx.known_finding('F19-v1-shared-top-level-key', still_fails=bool(w19.get('accepted_unknown')))
+        still = bool(w19.get('accepted_unknown'))
+        ctx.known_finding('F19-v1-shared-top-level-key', still_fails=still)
         ctx.count(1, key='witness:F19', nontrivial=True)
-    if ctx.finding('F22-catchall-sentinel-key'):
-        ctx.known_finding('F22-catchall-sentinel-key',
-                          still_fails=bool(w22.get('with_default', {}).get('err') == 'KeyError' or w22.get('no_default_dropped')))
-        ctx.count(1, key='witness:F22', nontrivial=True)
+        if not still:
+            resolved.add('F19-v1-shared-top-level-key')
+    if ctx.finding('F41-catchall-sentinel-key'):
+        still = bool(w22.get('with_default', {}).get('err') == 'KeyError' or w22.get('no_default_dropped'))
+        ctx.known_finding('F41-catchall-sentinel-key', still_fails=still)
+        ctx.count(1, key='witness:F41', nontrivial=True)
+        if not still:
+            resolved.add('F41-catchall-sentinel-key')
 
     # ---- model, phase 1 (nested levels) and phase 2 (root levels) ------------------------------
     def level_expr(spec, flat, tbl):
@@ -740,7 +746,9 @@ def run(ctx):
                     ctx.violation('%s engine, class %s, load %d of the history, document %s: %s' %
                                   (spec['engine'], spec['name'], j + 1, json.dumps(d)[:200], bad),
                                   {'kind': 'case', 'cls': spec, 'loads': c['loads'], 'index': j, 'model_says': [[list(k[0]), k[1], v] for k, v in ms.items() if k[0] == tuple(ordered_fields(spec))]})
-            if model_ok:
+            if model_ok and region_of(spec, d, ms) in resolved:
+                ctx.hist('resolved_region_direct_predicate_only', region_of(spec, d, ms))
+            elif model_ok:
                 ctx.traces_validated += 1
                 mo = parse_out(mparts[j]) if not mparts[j].startswith('U:') else parse_unknown(mparts[j])
                 if 'ok' in mo:
@@ -777,8 +785,8 @@ def replay(ctx, obj):
                 ok = False
         return ok
     fid = obj.get('finding') or ''
-    if obj.get('kind') in ('F19', 'F22') or fid.startswith('F19') or fid.startswith('F22'):
-        kind = 'F19' if (obj.get('kind') == 'F19' or fid.startswith('F19')) else 'F22'
+    if obj.get('kind') in ('F19', 'F41') or fid.startswith('F19') or fid.startswith('F41'):
+        kind = 'F19' if (obj.get('kind') == 'F19' or fid.startswith('F19')) else 'F41'
         w = ctx.impl('c10', {'witness': [{'kind': kind}]})['witness'][0]
         print('witness outcome: %s' % json.dumps(w)[:600])
         if kind == 'F19':
